@@ -81,6 +81,9 @@ def run(tier):
             return w.buf_push(m, st, args[0], Sym(("lower-all", c.name[1], c.name[2]), "char"))
         return None
 
+    def str_to_lowercase(w, m, st, callee, args, term):
+        raise fcd.DisciplineError("the string is lower-cased with str::to_lowercase, which is context-sensitive: U+03A3 maps to U+03C2 or U+03C3 depending on its neighbours (Final_Sigma), so the result for a character depends on where it stands; char::to_lowercase is the per-character mapping")
+
     def once(w, m, st, callee, args, term):
         return Opq("once", (args[0],))
 
@@ -112,7 +115,7 @@ def run(tier):
         CH + "is_ascii_alphabetic": lambda cls, c: ip.boolean(classes[cls][5] and (classes[cls][0] or classes[cls][1])),
         CH + "to_ascii_lowercase": lambda cls, c: Sym(("lower-all", c.name[1], cls), "char") if classes[cls][5] else c,
     }
-    extra = {TO_LOWER: to_lower, FOR_EACH: for_each, "<alloc::string::String as core::iter::traits::collect::Extend<char>>::extend": extend, ONCE: once, ITER_NE: iter_cmp(True), ITER_EQ: iter_cmp(False), "<core::char::ToLowercase as core::iter::traits::iterator::Iterator>::next": next_of_lower}
+    extra = {"alloc::str::<impl str>::to_lowercase": str_to_lowercase, TO_LOWER: to_lower, FOR_EACH: for_each, "<alloc::string::String as core::iter::traits::collect::Extend<char>>::extend": extend, ONCE: once, ITER_NE: iter_cmp(True), ITER_EQ: iter_cmp(False), "<core::char::ToLowercase as core::iter::traits::iterator::Iterator>::next": next_of_lower}
     w = fcd.FcdWorld(prog, alpha, oracles, extra_oracles=extra)
     key = COMMON + "case_mapping_rule"
     info = fcd.analyse(prog, rep, "discipline", key, w)
